@@ -19,9 +19,9 @@ TEXT = {
             "The backend-initiated request server and GPU proxy are covered where their units are registered."),
     "C07": ("Every gated frontend method and backend arm: gate bit clear in the relevant acknowledged word implies error, wire unchanged, handler untouched; acknowledged words change only in the SET_* operations; REPLY_ACK is always offered.",
             "Gate table is written from the specification's bit numbers (literals), flag constants are checked against it."),
-    "C09": ("recv_into_iovec wraps every descriptor the kernel installed in exactly one File and returns an error only when none was installed (Verus, every count up to the 32-entry buffer); recv_into_iovec_all keeps the files of the first chunk and drops the rest (Verus); ownership-transfer sites (into_raw_fd/from_raw_fd in set_backend_req_fd, set_gpu_socket, set_vring_kick/call/err, take_single_file, handle_vring_fd_request) carry a ledger proof with OwnedFd::drop stubbed (Kani); arms hand the received descriptors to the handler exactly as received or drop them (Verus); scan: every into_raw_fd is re-wrapped in the same expression, the from_raw_fd sites are exactly the proved ones, no forget-like construct exists.",
+    "C09": ("recv_into_iovec wraps every descriptor the kernel installed in exactly one File and returns an error only when none was installed (Verus, every count up to the 32-entry buffer); recv_into_iovec_all keeps the files of the first chunk and drops the rest (Verus); ownership-transfer sites (into_raw_fd/from_raw_fd in set_backend_req_fd, set_gpu_socket, set_vring_kick/call/err, take_single_file, handle_vring_fd_request) carry a ledger proof with OwnedFd::drop stubbed (Kani); arms hand the received descriptors to the handler exactly as received or drop them (Verus); scan: every into_raw_fd is re-wrapped in the same expression (or bound to a name that is re-wrapped exactly once with no `?`/return/break/continue in between), the from_raw_fd sites are exactly the proved ones, no forget-like construct exists.",
             "Rust's affine ownership (A-AFFINE) covers everything between the listed sites; descriptors beyond 32 are closed inside vmm-sys-util (dependency); the worker's own exit-event consumer is intentionally handed to epoll for its lifetime (not a received descriptor)."),
-    "C10": ("Lock-discipline lemma: every frontend method takes the lock at most once and performs its whole request/reply exchange through that one guard (Tx then Rx with nothing in between in the ghost event log).",
+    "C10": ("Lock-discipline lemma: every frontend method takes the lock at most once and performs its whole request/reply exchange through that one guard (Tx then Rx with nothing in between in the ghost event log); a syntactic frame condition (no second acquisition of the endpoint mutex while a let-bound guard is live, in frontend.rs / backend_req.rs / gpu_backend_req.rs) covers closures, which the Verus dialect cannot reach.",
             "Mutual exclusion of std::sync::Mutex is assumed (A-LOCK); this is a proof of the lemma the property reduces to, not an exploration of schedules."),
     "C20": ("One complete Kani proof per validator over all bit patterns against a reference predicate written from the property text, plus the same real bodies verified in Verus.",
             "uuid::Uuid::is_nil/is_max run on the real dependency code under Kani."),
